@@ -661,13 +661,14 @@ class TextXVisitor(RRELVisitor):
             rule_params = {}
 
         if root_rule.rule_name.startswith("__asgn") or (
-            isinstance(root_rule, (Match, RuleCrossRef)) and rule_params
+            rule_params and not isinstance(root_rule, Sequence)
         ):
             # If it is assignment node it must be kept because it could be
             # e.g. single assignment in the rule.
-            # Also, handle a special case where rule consists only of a single
-            # match or single rule reference and there are rule modifiers
-            # defined.
+            # Also, handle a special case where there are rule modifiers
+            # defined and the rule consists only of a single match, a single
+            # rule reference, a repetition, an optional or an unordered
+            # group: only sequences and ordered choices apply the modifiers.
             root_rule = Sequence(
                 nodes=[root_rule], rule_name=rule_name, root=True, **rule_params
             )
